@@ -343,6 +343,16 @@ retry:
                 return status::OK_SCAN_END;
             }
         } else {
+            if constexpr (!is_inlinable<ValueType>()) {
+                /**
+                 * remove clears the slot without changing the node version,
+                 * so the slot may have been emptied after the snapshot.
+                 */
+                if (vp == nullptr) {
+                    clean_up_tuple_list_nvc();
+                    goto retry; // NOLINT
+                }
+            }
             auto in_range = [&full_key, &tuple_list, &vp, &node_version_vec,
                              &v_at_fb, &node_version_ptr, &tuple_pushed_num,
                              max_size]() {
